@@ -654,7 +654,7 @@ def stepRepl (st : State) (toks : List String) : State × String :=
   let get (k : String) : String := (DbProto.kvOf toks k).getD "_"
   if toks.head? != some "p.init" && w.nodes.length == 0 then (st, "bad-op") else
   -- the RPCs act on settled states
-  let w := if ["p.newterm", "p.lead", "p.elect", "p.electm", "p.add", "p.write", "p.racewrite", "p.restart", "p.cut"].contains (toks.headD "") then Repl.settle g w else w
+  let w := if ["p.newterm", "p.lead", "p.elect", "p.electm", "p.add", "p.write", "p.racewrite", "p.restart", "p.crash", "p.trunc", "p.cut"].contains (toks.headD "") then Repl.settle g w else w
   match toks with
   | "p.init" :: _ => ({ st with world := Repl.World.init ((get "n").toNat?.getD 3) }, "ok")
   | ["p.newterm", i, t] =>
@@ -716,6 +716,17 @@ def stepRepl (st : State) (toks : List String) : State × String :=
         | .ok rep => "head=" ++ toString rep.1 ++ ":" ++ toString rep.2 ++ " wal=" ++ toString h.1 ++ ":" ++ toString h.2
         | .error e => showReplErr e)
     | _, _, _ => (st, "bad-op")
+  | ["p.trunc", f, t, o] =>
+    -- a (re-)delivered Truncate request
+    match f.toNat?, t.toInt?, o.toInt? with
+    | some f, some t, some o =>
+      let (w', r) := Repl.truncateFollower g w f t o
+      ({ st with world := w' }, match r with | .ok h => "head=" ++ toString h | .error e => showReplErr e)
+    | _, _, _ => (st, "bad-op")
+  | ["p.crash", i] => match i.toNat? with
+    -- a crash: what is durable (term, log) stays - as after a restart
+    | some i => ({ st with world := Repl.restart w i }, "ok")
+    | none => (st, "bad-op")
   | ["p.cut", i] => match i.toNat? with
     | some i => ({ st with world := { w with cut := if w.cut.contains i then w.cut else w.cut ++ [i] } }, "ok")
     | none => (st, "bad-op")
